@@ -1290,7 +1290,26 @@ let c14 = function
 let c13 = function
   | [_; L [A why]] -> "OK 0 " ^ why
   | [_; L (A "scanner-build-failed" :: _)] -> "SKIP scnr2_generate could not build the scanner"
-  | [_; L (A "modes" :: ms); text; _k; res] ->
+  | [_; L (A "modes" :: ms0); text; _k; res] ->
+    let members = Stdlib.List.concat_map (function L (A "members" :: sets) -> [Stdlib.List.map (fun x -> ints_of_sx x) sets] | _ -> []) ms0 in
+    let ms = Stdlib.List.filter (function L (A "members" :: _) -> false | _ -> true) ms0 in
+    (* the grammar's own state annotations decide which user terminals a scanner state has *)
+    let membership_problem =
+      (match members with
+       | [sets] when Stdlib.List.length sets = Stdlib.List.length ms ->
+         let maxu = Stdlib.List.fold_left (fun a l -> Stdlib.List.fold_left max a l) 4 sets in
+         let probs = Stdlib.List.mapi (fun m (mode, want) ->
+             (match mode with
+              | L [L entries; _] ->
+                let have = Stdlib.List.sort_uniq compare (Stdlib.List.filter (fun t -> t >= 5 && t <= maxu)
+                                                        (Stdlib.List.map (function L (ty :: _) -> int_of_sx ty | _ -> -1) entries)) in
+                let want' = Stdlib.List.sort_uniq compare want in
+                if have = want' then None
+                else Some (Printf.sprintf "scanner state %d has the user terminals [%s], the grammar's state annotations give [%s]" m
+                             (Stdlib.String.concat " " (Stdlib.List.map string_of_int have)) (Stdlib.String.concat " " (Stdlib.List.map string_of_int want')))
+              | _ -> None)) (Stdlib.List.combine ms sets) in
+         Stdlib.List.find_opt (fun x -> x <> None) probs
+       | _ -> None) in
     let unsupported = ref false in
     let rx x = if x = L [A "unsupported"] then (unsupported := true; Regex.Empty) else regex_of_sx x in
     let modes = Stdlib.List.map (function
@@ -1307,7 +1326,9 @@ let c13 = function
               | _ -> failwith "transition") trans in
           (es, tr)
         | _ -> failwith "mode") ms in
-    if !unsupported then "SKIP pattern uses a regex feature outside the model"
+    if (match membership_problem with Some (Some _) -> true | _ -> false) then
+      (match membership_problem with Some (Some w) -> "FAIL key=scanner-state-membership " ^ w | _ -> "FAIL ?")
+    else if !unsupported then "SKIP pattern uses a regex feature outside the model"
     else if not (LongestMatch.modes_ok modes) then "SKIP mode table refers to an unknown mode"
     else begin
       match res with
